@@ -279,7 +279,7 @@ Inductive reachable (lay : option (bytes -> path)) : tree -> cache -> Prop :=
 | R_open t : reachable lay t []                                             (* fs.rs:84, 103: a new handle *)
 | R_get t c i : reachable lay t c -> StepOk lay t ->
     reachable lay t (snd (get_inventory lay c t i))
-| R_find t c i : reachable lay t c -> StepOk lay t ->                         (* l.126-156: the root path lookup of *)
+| R_find t c i : reachable lay t c -> StepOk lay t ->                         (* fs.rs:126-156: the root path lookup of *)
     reachable lay t (snd (find_root lay c t i))                               (* write_new_object, validate_object, ... *)
 | R_purge t c i : reachable lay t c -> StepOk lay t ->
     reachable lay (snd (fst (purge_object lay c t i))) (snd (purge_object lay c t i))
@@ -328,7 +328,7 @@ Qed.
 Lemma handle_layout m t c i :
   reachable (Some m) t c -> names_unique t = true -> Placed m t ->
   (In i (committed_ids t) -> exists p, fst (get_inventory (Some m) c t i) = Found p i) /\
-  (~ In i (committed_ids t) -> lookup_path t (m i) = None -> fst (get_inventory (Some m) c t i) = NotFound).
+  (~ In i (committed_ids t) -> object_like t (m i) = false -> fst (get_inventory (Some m) c t i) = NotFound).
 Proof. intros Rch U P. apply get_inventory_layout; try assumption. apply (reachable_layout m t c Rch). Qed.
 
 (** purge through the handle, then the same handle is asked again *)
